@@ -22,6 +22,21 @@ CHECKS = {
  "C17": dict(engine="enum", technique="bounded-exhaustive enumeration of texts, integers, JSON documents and maps with round-trip oracles",
    text="Every text up to length 4/5 over an alphabet with multi-byte, 4-byte, NUL and LF characters goes through both byte/base64 round trips; every integer up to 2^16 / 2^20 and the neighbourhood of every power of two up to 2^64 through hex; every JSON document of depth 2 (quick) / 3 (thorough, covering subset) and width 2 through json_parse/json_encode --collection against the documented normalisation; every small map through the properties round trip.",
    note="Trusted: serde_json for reading the produced JSON; the harness reads byte arrays and maps directly from the handle table.", ref="5/C17"),
+ "C03": dict(engine="tapemc", technique="stateless exploration of command-result sequences (deviation-bounded choice tape) against the abstract machine of the statement",
+   text="Every program of up to 3 (quick) / 4 (thorough) lines over 12 line forms with a scripted command, under every on_error configuration, is executed by the real runner for every sequence of command results (16 result kinds per invocation) with at most 2 / 3 deviations from the default result within a horizon of 6 / 8 invocations; each execution is compared step by step with the abstract machine (invocation log with bound arguments and line, on_error arguments, final variables, success or failing line and source).",
+   note="Trusted: the 120-line abstract machine. Failure messages are compared only through on_error's arguments; failures by line and source.", ref="5/C03"),
+ "C04": dict(engine="tapemc", technique="stateless exploration of condition/array answers over all small well-nested block trees against a tree-walking interpreter",
+   text="Every well-nested forest of if/elseif/else, while and for-in blocks with up to 2 (quick) / 3 (thorough, plus a 4-block subset) blocks and depth 3, with every keyword spelling (full product for single blocks, rotations above), is run on the real runner for every assignment of truth values and array lengths with bounded deviations; the emit trace with loop-variable values and the final variables must equal those of a tree-walking interpreter of the same AST.",
+   note="Trusted: the tree-walking interpreter (flow.rs) and the harness commands emit/ans/lst. Loop variables after their loop are masked.", ref="5/C04"),
+ "C05": dict(engine="tapemc", technique="stateless exploration of answers over generated programs with functions (returns planted at every position) against a tree-walking interpreter with call semantics",
+   text="One- and two-function programs (plain and <scope>) whose bodies are block forests with a return planted at every position, called as statement, assignment, in condition position, nested, recursively and repeatedly, are executed for every answer sequence with bounded deviations and compared with the reference interpreter (arguments, return value, early return from any nesting, repeated calls start afresh, scoped isolation).",
+   note="Trusted: the reference interpreter's call semantics; the two corners the property leaves open are masked in code next to a comment.", ref="5/C05"),
+ "C11": dict(engine="seqmc", technique="explicit-state breadth-first search to a fixpoint over variable/scope-stack command histories with a map-and-stack reference model compared at every transition",
+   text="All reachable (variables, scope stack) states over 3 names x 2 values with stack depth <= 2 (quick, 61k states, 3M transitions) / 3 and a 4-name variant (thorough) are enumerated; from each state every one of 62 operations is executed on the real Context and compared with the model: output, complete variable map, saved maps inside the scope stack, handle table.",
+   note="Trusted: the model (BTreeMap + Vec<BTreeMap>); canonical state = the implementation's own variables and state map.", ref="5/C11"),
+ "C12": dict(engine="seqmc", technique="explicit-state breadth-first search to a fixpoint over collection command histories with vector/map/set models and whole-handle-table comparison",
+   text="All reachable handle tables with <= 2 live collections of length <= 2 are enumerated (quick: 11k states, 2.3M transitions); from each state every collection command is run with every live handle, a released / unknown / look-alike handle, boundary indexes and values, and compared with the model: output and the complete handle table (so a failing operation that changes anything is caught).",
+   note="Trusted: the models; unordered listings are compared as multisets and sorted in place; flow-control tables of library scripts are abstracted from the state key (documented in the code and DESIGN).", ref="5/C12"),
 }
 
 NOT_YET = {
